@@ -10,3 +10,24 @@ mod migration;
 mod recover;
 pub mod service;
 mod sync;
+
+/// Re-exports of the already-`pub` items of the private coordinator modules,
+/// so that the external verification harness can drive single rounds.
+#[cfg(feature = "verif")]
+pub mod verif {
+    pub mod core {
+        pub use super::super::core::*;
+    }
+    pub mod sync {
+        pub use super::super::sync::*;
+    }
+    pub mod detector {
+        pub use super::super::detector::*;
+    }
+    pub mod migration {
+        pub use super::super::migration::*;
+    }
+    pub mod recover {
+        pub use super::super::recover::*;
+    }
+}
